@@ -102,6 +102,14 @@ func (in *Interp) raceFork(child *G) {
 	if in.race == nil {
 		return
 	}
+	if in.forkVC != nil {
+		// a timer callback: its parent in the happens-before order is the goroutine that armed the
+		// timer, not whichever goroutine the scheduler was running when it fired
+		child.vc = in.forkVC.clone()
+		child.vc.set(child.id, 1)
+		in.forkVC = nil
+		return
+	}
 	p := in.gvc()
 	child.vc = p.clone()
 	child.vc.set(child.id, 1)
